@@ -20,6 +20,7 @@ func init() {
 		Rule: "streams: ~35 short valid streams (every code shape, block type and transition) whole and cut at EVERY byte, plus long encoder-made streams whole and cut at a ladder; " +
 			"environment: bufio sizes {16,17,32,64,327,328,329,512,4095,4096,4097,65536,1<<20} x delivery {full, 1,2,3,5,8,13,4096 bytes per call} x EOF {separate, with the last data} with the all-at-once Read policy, " +
 			"and 12 Read-size policies x bufio {16,4096}; deviations: at ANY source call a short read of r bytes, r in {1,2,7,8,9,23,24,25,327,328,329}, up to the deviation bound (1 quick, 2 thorough); " +
+			"window-fill family: streams whose literals, packed literal+length entries and copies straddle the point where the decoder's 64 KiB output window is full, delivered bytewise (plain and through a 16-byte bufio) and in EVERY two-piece split within [-8,+72) bytes of that point; " +
 			"oracle: output bytes and final error identical to the all-at-once run; non-trivial = the run differs from the all-at-once run in at least one environment dimension",
 		Assumptions: []string{"the all-at-once run (plain source delivering everything in one call, one large Read) is the reference"},
 		Quick:       TierSpec{MaxDev: 1, Shards: 4, ShardDepth: 3, BudgetS: 200},
@@ -65,7 +66,71 @@ func c04Harness(cfg *Cfg) func(x *mc.Exec) {
 		err error
 	}
 	refCache := map[refKey]refVal{}
+	wfRef := map[string]refVal{}
 	return func(x *mc.Exec) {
+		if x.Choose(2, "family") == 1 {
+			// window-fill family: the symbols that straddle the point where the decoder's output window is full,
+			// delivered bytewise and in every two-piece split around the compressed position of that point
+			j := []int{0, 1, 2, 3}[x.Choose(4, "bytes-before-fill")]
+			nl := x.Choose(3, "literals-before-match")
+			L := []int{3, 258}[x.Choose(2, "match-len")]
+			d := []int{1, 17, 100, 4096}[x.Choose(4, "match-dist")]
+			kind := x.Choose(2, "block-kind")
+			stream, name, at := g.windowFillStreamAt(65536, j, nl, L, d, kind)
+			ref, ok := wfRef[name]
+			if !ok {
+				o := fastFlate(stream, env.PolicyAll)
+				if cls, msg := o.basicFaults(); cls != "" {
+					x.Fail("C04 reference-run "+cls, "%s: %s", name, msg)
+					return
+				}
+				ref = refVal{o.Out, o.Err}
+				wfRef[name] = ref
+			}
+			// at = compressed offset at which the interesting block starts
+			dm := x.Choose(3, "delivery")
+			src := env.NewSource(stream)
+			var source io.Reader = src
+			desc := name
+			switch dm {
+			case 0:
+				src.Chunk = 1
+				src.Pieces = []int{at - 40}
+				desc += " delivery=bytewise-from-" + fmt.Sprint(at-40)
+			case 1:
+				src.Chunk = 1
+				src.Pieces = []int{at - 40}
+				source = bufio.NewReaderSize(src, 16)
+				desc += " delivery=bytewise-through-bufio16"
+			case 2:
+				k := at - 8 + x.Choose(80, "split")
+				src.Pieces = []int{k}
+				desc += fmt.Sprintf(" delivery=two-pieces-split-at-%d", k)
+			}
+			var r io.Reader
+			if _, isBuf := source.(*bufio.Reader); isBuf {
+				r = resetFastFlateOn(source)
+			} else {
+				r = newFastFlateOn(source)
+			}
+			o := drainReader(r, env.PolicyAll)
+			x.Note(o.FP)
+			x.NonTrivial()
+			if cls, msg := o.basicFaults(); cls != "" {
+				x.Fail("C04 "+cls+" window-fill", "%s: %s", desc, msg)
+				return
+			}
+			if errClass(o.Err) != errClass(ref.err) {
+				x.Fail(fmt.Sprintf("C04 error-differs window-fill got=%s want=%s", errClass(o.Err), errClass(ref.err)), "%s: final error %v after %d bytes; all-at-once run: %v after %d bytes", desc, o.Err, len(o.Out), ref.err, len(ref.out))
+				return
+			}
+			if !bytes.Equal(o.Out, ref.out) {
+				x.Fail("C04 output-differs window-fill", "%s: %s (all-at-once run is 'want')", desc, diffDesc(o.Out, ref.out))
+				return
+			}
+			x.Outcome("window-fill ok")
+			return
+		}
 		si := x.Choose(len(corpus), "stream")
 		cs := corpus[si]
 		// cut: 0 = whole, else cut position
